@@ -85,6 +85,8 @@ pub enum Op {
     ForSum { h: usize },
     /// script `for x in l { if c < n { l.push(x) } c = c + 1 }`
     ForPush { h: usize, n: u64 },
+    /// script `for x in l { if x == v { return i } i = i + 1 } i` (leaves the loop early)
+    ForFind { h: usize, v: MVal },
     /// nested element type only: push `v` to inner list `inner` through its own handle
     /// (every alias stored in an outer list must observe it)
     InnerPush { inner: usize, v: u64 },
@@ -262,6 +264,10 @@ impl SeqModel {
                     MVal::Int(x) => s.wrapping_add(*x),
                     _ => s,
                 })),
+                None => Obs::Skipped,
+            },
+            Op::ForFind { h, v } => match self.lid(*h) {
+                Some(id) => Obs::Num(self.heap.index_of(id, v).unwrap_or(self.heap.lists[id].len()) as u64),
                 None => Obs::Skipped,
             },
             Op::InnerPush { inner, v } => {
